@@ -575,6 +575,7 @@ impl Harness for UdpStore {
 
     fn execute(scn: &Scn, prop: &str, stats: &mut Stats) -> Outcome {
         time::set_manual_secs(0);
+        foldhash::verif_reset_seed_counter();
         let mut config = Config::default();
         config.protocol.max_response_peers = scn.max_response_peers;
         config.cleaning.max_peer_age = scn.max_peer_age;
